@@ -93,6 +93,34 @@ def check(prop: str, tier: str, only: str | None = None, repo: str | None = None
     return rep.finish()
 
 
+def probe(prop):
+    """Print the finding keys of one property on OLSA_REPO that known_findings.json does not
+    list (used by the self-test on scratch variants; writes no evidence)."""
+    import traceback
+
+    mod = importlib.import_module(f"olsa.rules.{prop.lower()}")
+    ctx = Ctx("quick")
+    known = {k["key"] for k in core.load_known()["known"]}
+    new, errs = [], []
+    for rule_id, fn in mod.RULES:
+        try:
+            rr = fn(ctx)
+        except core.AnalysisError as e:
+            errs.append(f"{rule_id}: {e}")
+            continue
+        except Exception:
+            errs.append(f"{rule_id}: internal error {traceback.format_exc()[-300:]}")
+            continue
+        for r in rr if isinstance(rr, list) else ([rr] if rr is not None else []):
+            if r.instances < r.floor:
+                errs.append(f"{r.rule}: {r.instances} instances < floor {r.floor}")
+            for f in r.findings:
+                if f.key not in known:
+                    new.append(f.key)
+    print(json.dumps({"new": new, "analysis_errors": errs}))
+    return 0
+
+
 def main(argv=None):
     ap = argparse.ArgumentParser(prog="olsa")
     sub = ap.add_subparsers(dest="cmd", required=True)
@@ -108,6 +136,8 @@ def main(argv=None):
     st.add_argument("--jobs", type=int, default=16)
     st.add_argument("--only")
     st.add_argument("--prop")
+    pb = sub.add_parser("probe")
+    pb.add_argument("prop")
     r = sub.add_parser("replay")
     r.add_argument("file")
     args = ap.parse_args(argv)
@@ -143,6 +173,8 @@ def main(argv=None):
         from .selftest import run_selftest
 
         return run_guarded(lambda: run_selftest(prop=args.prop, jobs=args.jobs, only=args.only))
+    if args.cmd == "probe":
+        return probe(args.prop)
     if args.cmd == "replay":
         with open(args.file) as f:
             d = json.load(f)
